@@ -3,7 +3,7 @@ Confirm and keep a seeded change produced by a sub-agent:
     python -m vf.seedkeep C07 A [extra checks...]
 Looks in /tmp/mut/out_C07/{patchA.diff,demoA.py,notesA.txt} and the scratch worktree /tmp/mut/C07.
 1. worktree clean -> demo must PASS; 2. apply patch -> repository tests must pass (331), demo must FAIL;
-3. revert; 4. run the property's quick check (and extras) against /repo with the patch (vf.seedrun);
+3. revert; 4. run the property's quick check (and extras) against a scratch worktree with the patch (vf.seedpar.run_seed);
 5. write /verif/seeded/C07_A/{patch.diff,demo.py,notes.txt,meta.json}.
 """
 import json
@@ -49,13 +49,13 @@ def main():
         print(r0.stdout[-300:], r1.stdout[-300:])
         return 1
     checks = [pid] + extras
-    sr = subprocess.run([sys.executable, "-m", "vf.seedrun", patch] + checks, cwd=ROOT, capture_output=True, text=True)
-    res = {}
-    for l in sr.stdout.splitlines():
-        if l.startswith("RESULT "):
-            res = json.loads(l[7:])
-        elif not l.startswith("WARNING"):
-            print("   " + l[:300])
+    from vf import seedpar
+
+    _, res = seedpar.run_seed("%s_%s" % (pid, keep_as), checks, int(os.environ.get("SEED_JOBS", "6")), patch=patch)
+    for k, v in res.items():
+        print("   ", k, v if isinstance(v, str) else {a: b for a, b in v.items() if a != "tail"})
+    if "error" in res:
+        return 2
     dst = os.path.join(ROOT, "seeded", "%s_%s" % (pid, keep_as))
     os.makedirs(dst, exist_ok=True)
     shutil.copy(patch, dst + "/patch.diff")
